@@ -22,6 +22,10 @@ var c06Commands = []struct {
 	replace bool
 }{
 	{"replace all 'ab' with 'X'", true},                         // shorter
+	// `set .. to matches <command>` is a DEFINITION: whatever command it names, no file is touched in any mode
+	{"set m to matches replace all 'ab' with 'X'", false},
+	{"set m to matches replace all 'a' with 'bb'\nset k to matches find all 'b'\nfind all 'ab'", false},
+	{"set p to pattern 'a'\nset m to matches replace all p with 'Q'\nset f to transform return 'z' end", false},
 	{"replace all 'ab' with '<<' value '>>' matchNumber", true}, // longer
 	{"replace all 'ab' with ''", true},                          // empty replacement
 	{"replace all 'zzzzzz' with 'never'", true},                 // zero matches
@@ -199,7 +203,7 @@ func C06(r *drv.Run) {
 	if !quick(r) {
 		nbig = 240
 	}
-	bigCmds := []int{0, 1, 3, 12, 20}
+	bigCmds := []int{0, 4, 6, 15, 23}
 	nlink := 16
 	r.Exec(n+nbig+nlink, drv.ExecOpts{Batch: 25}, func(i int) *drv.Item {
 		rng := gen.Derive(r.Seed, "C06", i)
